@@ -19,6 +19,12 @@ This harness ties the model to /repo's loaders on every run:
   O  the independent reader computes the mapping the file declares (file bytes, zero fill, slots,
      entry point) and judges what the real memory returns whenever the image satisfies the theorem's
      hypothesis (evaluated independently in Python and by the model's decidable `LoadableOK`).
+  S  sweep over every ELF loader amoco registers (DefineLoader.LOADERS tables "elf" and "elf-baremetal", read at run time
+     after load_program has imported its loader packages): images with isolated segments and zero-filled tails that end
+     inside the last file-backed page, at its end, or run over several further pages are loaded through each usable
+     loader (load_program, or the registered fallback loader itself when an OS loader shadows it) and judged by the
+     independent reader alone: bytes, zero fill, pc, fetch windows.  Loaders that build no task for a plain image
+     are skipped and counted.
   K  `Zone.check` (⇒ ZoneWF) on the model zone; the real zone equals it object for object.
   R  the independent reader's PT_LOAD table is cross-checked against `readelf -lW` (samples + synthesised files).
 A disagreement between code and model on an image outside the theorem's hypothesis, where the code behaves
@@ -59,15 +65,21 @@ class Runner(object):
         self.nviol = 0            # failing inputs found by the oracle (before de-duplication by signature)
         self.n = 0
         self.ptr = 4
+        self.per_loader = False
+        self.route_state = {}     # (table, machine, x64, be) -> None (usable) | reason it is skipped
         import amoco.arch.x86.cpu_x86 as cpu_x86
         self.cpu_x86 = cpu_x86
 
     # -- reporting -----------------------------------------------------------------------------------
     def violation(self, fmt, aspect, loader, what, case, real, model, expected, theorem):
         # the byte-level aspects are decided by the format's loadsegment, shared by its OS loaders
-        if aspect in ("zero-fill", "file-bytes", "fetch-window", "fetch-instruction"):
-            sig = "C15:%s:%s" % (fmt, aspect)
+        shared = "C15:%s:%s" % (fmt, aspect)
+        if aspect in ("zero-fill", "file-bytes", "fetch-window", "fetch-instruction") and \
+                (not self.per_loader or shared in self.ck.known_hit or any(v["signature"] == shared for v in self.ck.violations)):
+            sig = shared
         else:
+            # (in the sweep over all registered loaders the loader is part of the signature, unless the run has
+            # attributed the aspect to the format's loadsegment already)
             sig = "C15:%s:%s:%s" % (fmt, aspect, loader)
         self.nviol += 1
         self.ck.report(sig, what, "oracle", theorem, case=case, real=real, model=model, expected=expected)
@@ -403,6 +415,141 @@ class Runner(object):
             ck.sample({"format": "elf", "loader": loader, "ps": ps, "kinds": kinds, "loadable": loadable,
                        "phdrs": [[p["type"], p["offset"], p["vaddr"], p["filesz"], p["memsz"]] for p in L_],
                        "slots": len(slots), "objects": len(L.zone._map), "agree": ok})
+
+    # -- every registered ELF loader (OS / bare-metal fallback / …), judged by the oracle alone ---------------------
+    def route_probe(self, table, machine, x64, be):
+        """can the loader registered as LOADERS[table][machine] build a readable task for the plainest image of the
+        family (one page-aligned segment without zero-filled part)?  Loaders that cannot (for reasons that have
+        nothing to do with the mapping: missing modules, old task interfaces) are skipped and counted."""
+        key = (table, machine, x64, be)
+        if key in self.route_state:
+            return self.route_state[key]
+        data, _ = load_gen.bss_tail_image(rng("C15/sweep/probe/%s/%d/%d/%d" % key), machine, x64, be, 4096, None, probe=True)
+        why = None
+        try:
+            L, how = R.load_route(data, table, machine, 4096)
+            if L is None:
+                why = "no-task"
+            else:
+                e = O.elf_read(data)
+                p = [q for q in e.phdrs if q["type"] == O.PT_LOAD][0]
+                got = R.unchunk(L.chunks(p["vaddr"], p["filesz"], R.Names()))
+                L.pc()
+                if got != list(data[p["offset"]:p["offset"] + p["filesz"]]):
+                    why = "plain-image-not-mapped"          # not a loader of PT_LOAD images (judged on the formats it is one for)
+        except Exception as ex:
+            why = "raises-" + type(ex).__name__
+        self.route_state[key] = why
+        self.ck.count("sweep.route.%s.%d.%s%s.%s" % (table, machine, "64" if x64 else "32", "be" if be else "le",
+                                                     "usable" if why is None else "skipped:" + why))
+        return why
+
+    def route_case(self, table, machine, data, ps, tag, meta=None):
+        """one image through one registered loader; the task memory is judged byte by byte against the file's mapping
+        (file bytes, zero fill), the program counter against e_entry, fetch windows / decoded instruction bytes against
+        the bytes the file places at the address."""
+        ck = self.ck
+        self.n += 1
+        e = O.elf_read(data)
+        case = {"format": "elf", "route": [table, machine], "ps": ps, "tag": tag, "meta": meta, "file": data.hex()}
+        theorem = "Amoco.Loader.Props.elf_image (every loader: file bytes, zero fill, pc = entry)"
+        self.per_loader = True
+        try:
+            try:
+                L, how = R.load_route(data, table, machine, ps)
+            except Exception as ex:
+                self.broken("load_program-raised:elf", case, repr(ex), None, "load_program raised")
+                return False
+            case["how"] = how
+            label = "%s[%d]" % (table, machine)
+            if L is None:
+                # the plain image of the same family was loaded by this loader (route_probe)
+                self.violation("elf", "rejected", label, "%s: the loader builds no task for an image with isolated, page-congruent "
+                               "segments (%s), while it loads the same image without zero-filled tails"
+                               % (label, ", ".join((meta or {}).get("kinds", []))), case, None, None, "task", theorem)
+                return False
+            loader = R.loader_name(L)
+            ck.count("sweep.loaded.%s" % loader)
+            names = R.Names()
+            img = O.Image(O.elf_facts(data, e, 4, []))
+            ok = self.judge_bytes("elf", loader, case, L, names, img, theorem)
+            rpc = L.pc()
+            if rpc != e.entry:
+                ok = False
+                self.violation("elf", "pc", loader, "%s: the program counter after loading is %s, the file's entry point is %#x"
+                               % (loader, hex(rpc) if isinstance(rpc, int) else rpc, e.entry), case, rpc, None, e.entry, theorem)
+            if not ok:
+                return False              # the fetch windows over a wrong byte would only repeat the finding
+            # fetch: entry, the last file byte (window runs into the zero fill), the first zero byte, the first byte
+            # of every kind of further page, the last bytes of the segment
+            ml = L.maxlen()
+            addrs = [e.entry]
+            for p in [q for q in e.phdrs if q["type"] == O.PT_LOAD]:
+                fe, me = p["vaddr"] + p["filesz"], p["vaddr"] + p["memsz"]
+                if p["filesz"]:
+                    addrs.append(fe - 1)
+                if me > fe:
+                    addrs.append(fe)
+                    for u in {ps, 4096}:
+                        a = -(-fe // u) * u
+                        if a < me:
+                            addrs.append(a)
+                    addrs.append(max(fe, me - ml))
+            for a in addrs:
+                exp = img.expected(a, ml)
+                run = 0
+                while run < ml and exp[run] is not None and exp[run][0] in "bz":
+                    run += 1
+                if not run:
+                    continue
+                want = bytes(x[1] for x in exp[:run])
+                w = L.window(a, names, ml)
+                ck.count("sweep.fetch")
+                if w is None or w[0] != "raw" or len(w[1]) // 2 < run or bytes.fromhex(w[1])[:run] != want:
+                    ok = False
+                    self.violation("elf", "fetch-window", loader, "%s: the fetch window at %#x is %s, the file places %s there"
+                                   % (loader, a, short(w, 80), want.hex()), dict(case, address=a), w, None, want.hex(),
+                                   "Amoco.Loader.Props.fetch_window")
+                    break
+                if a == e.entry:
+                    ins = L.instruction(a)
+                    if isinstance(ins, tuple) and isinstance(ins[0], bytes):
+                        ck.count("sweep.fetch.decoded")
+                        if len(ins[0]) <= run and ins[0] != want[:len(ins[0])]:
+                            ok = False
+                            self.violation("elf", "fetch-instruction", loader, "%s: read_instruction(%#x) decoded bytes %s, the file places %s there"
+                                           % (loader, a, ins[0].hex(), want[:len(ins[0])].hex()), dict(case, address=a),
+                                           ins[0].hex(), None, want.hex(), "Amoco.Loader.Props.fetch_window")
+            nontrivial = bool((meta or {}).get("multi_page_tail"))
+            ck.case(("elf-route", table, machine, tag, ps), nontrivial=nontrivial)
+            if self.n % 41 == 1:
+                ck.sample({"format": "elf", "route": [table, machine], "loader": loader, "how": how, "ps": ps,
+                           "kinds": (meta or {}).get("kinds"), "agree": ok,
+                           "phdrs": [[p["offset"], p["vaddr"], p["filesz"], p["memsz"]] for p in e.phdrs if p["type"] == O.PT_LOAD]})
+            return ok
+        finally:
+            self.per_loader = False
+
+    def sweep(self, quick):
+        """every (table, e_machine) in the loader registry × class / byte order × page sizes × bss-tail layouts."""
+        ck = self.ck
+        routes = R.elf_routes()
+        ck.count("sweep.routes", len(routes))
+        variants = [(False, False), (False, True), (True, False)] + ([] if quick else [(True, True)])
+        per = 6 if quick else 60
+        for (table, machine) in routes:
+            for (x64, be) in variants:
+                if self.route_probe(table, machine, x64, be) is not None:
+                    continue
+                for n in range(per):
+                    tag = "sweep:%s:%d:%d%s:%d" % (table, machine, 64 if x64 else 32, "be" if be else "le", n)
+                    r = rng("C15/" + tag)
+                    ps = r.choice([4096, 4096, 256, 64, 0x10000] if quick else [4096, 4096, 256, 64, 16, 1024, 0x4000, 0x10000])
+                    data, meta = load_gen.bss_tail_image(r, machine, x64, be, ps, ck, light=quick)
+                    self.route_case(table, machine, data, ps, tag, meta)
+        usable = sorted({"%s[%d]" % (k[0], k[1]) for k, v in self.route_state.items() if v is None})
+        skipped = sorted({"%s[%d]" % (k[0], k[1]) for k, v in self.route_state.items() if v is not None} - set(usable))
+        return routes, usable, skipped
 
     # -- PE ----------------------------------------------------------------------------------------------
     def pe(self, data, tag, meta=None, path=None, ps=4096):
@@ -794,6 +941,10 @@ def main(tier):
         run.elf(data, meta["ps"], "gen:%d" % n, meta=meta, aslr=r.random() < 0.06)
         if len(ck.violations) >= 6:
             break
+    # every loader load_program can route an ELF to (registry read at run time), bss tails over further pages
+    routes, usable, skipped = run.sweep(quick)
+    ck.oblige("registered ELF loaders enumerated from DefineLoader.LOADERS: %d routes, judged %s, skipped (no task for the plain image) %s"
+              % (len(routes), usable, skipped), len(usable) > 0, "no registered ELF loader builds a task")
     for n in range(80 if quick else 1500):
         r = rng("C15/pe/%d" % n)
         data, meta = load_gen.pe_image(r, ck)
@@ -861,7 +1012,13 @@ def main(tier):
                      "tests/samples (ELF with several configured page sizes) + seeded synthesised ELF images (1..4 PT_LOAD, placement classes "
                      "far / next-page / adjacent-byte / share-page / unaligned / overlap / descending, file offsets congruent / same-delta / "
                      "incongruent / beyond EOF, bss sizes below and above a page, 35% with PT_INTERP and REL/RELA sections, 7 usual + 5 odd "
-                     "class/byte-order/machine targets, page sizes 16..64K and non powers of two) + synthesised PE32/PE32+ (VirtualSize <,=,> "
+                     "class/byte-order/machine targets, page sizes 16..64K and non powers of two) + a sweep over every ELF loader "
+                     "registered in DefineLoader.LOADERS at run time (tables elf and elf-baremetal: OS loaders through load_program, "
+                     "fallback loaders through load_program when they are the first loader of the machine and through the registered "
+                     "function otherwise; ELF32 LE/BE and ELF64; loaders that build no task for a plain one-segment image are skipped "
+                     "and counted) with isolated segments whose zero-filled tails end inside / at the end of the last file-backed "
+                     "page or run over 1..13 further pages, judged by the independent reader alone (bytes, zero fill, pc, fetch "
+                     "windows) + synthesised PE32/PE32+ (VirtualSize <,=,> "
                      "SizeOfRawData, removed sections, import tables), Mach-O 64 (filesize <,= vmsize, LC_MAIN / LC_UNIXTHREAD), Intel-HEX and "
                      "S-record streams with overlapping records, raw blobs; one case per (file, page size); non-trivial = satisfies the "
                      "theorem's hypothesis and has several segments / a zero-filled part / bound slots / overlapping records")
@@ -883,7 +1040,11 @@ def replay(path):
     else:
         data, p = bytes.fromhex(f), None
     fmt = case["format"]
-    if fmt == "elf":
+    if fmt == "elf" and case.get("route"):
+        table, machine = case["route"]
+        R.elf_routes()
+        run.route_case(table, machine, data, case["ps"], "replay", meta=case.get("meta"))
+    elif fmt == "elf":
         run.elf(data, case["ps"], "replay", meta=case.get("meta"), path=p, aslr=bool(case.get("aslr")))
     elif fmt == "pe":
         run.pe(data, "replay", path=p)
